@@ -314,16 +314,24 @@ def _pool():
 
 def evaluate(prop, cases, driver, origin='generated'):
     """Run implementation, model and oracle on cases."""
+    # a property whose model questions are about values the implementation produced on the way (requests_obs)
+    # is observed first; otherwise the model is asked first and the observation may run in the pool
+    late = hasattr(prop, 'requests_obs')
+    if getattr(prop, 'parallel', False) and len(cases) > 3:
+        observed = _pool().map(_observe_worker, [(type(prop).__module__, c) for c in cases], chunksize=1)
+    elif late:
+        observed = []
+        for c in cases:
+            obs = canonical(prop.observe(c))
+            observed.append((obs, prop.oracle(c, obs)))
+    else:
+        observed = None
     reqs, spans = [], []
-    for c in cases:
-        r = prop.requests(c)
+    for n, c in enumerate(cases):
+        r = prop.requests_obs(c, observed[n][0]) if late else prop.requests(c)
         spans.append((len(reqs), len(reqs) + len(r)))
         reqs.extend(r)
     replies = driver.batch(reqs)
-    if getattr(prop, 'parallel', False) and len(cases) > 3:
-        observed = _pool().map(_observe_worker, [(type(prop).__module__, c) for c in cases], chunksize=1)
-    else:
-        observed = None
     out = []
     for n, (c, (a, b)) in enumerate(zip(cases, spans)):
         rep = replies[a:b]
